@@ -307,7 +307,7 @@ def _gen_cases(tier, rng):
                                       "_n": cnt})
 
     # ---- seeded random larger cases -----------------------------------------------------------------------------
-    nrand = 250 if quick else 5000
+    nrand = 250 if quick else 20000
     big = 200 if quick else 3000
     for t in range(nrand):
         cnt += 1
@@ -354,7 +354,7 @@ def _gen_cases(tier, rng):
                 cases.append(c)
 
     # ---- malformed stream (error branches; nothing here is demanded by the property) ------------------------------
-    nmal = 150 if quick else 1500
+    nmal = 150 if quick else 4000
     for t in range(nmal):
         cnt += 1
         n = rng.randrange(0, 6)
@@ -727,10 +727,13 @@ def compare(case, io, mo, mode):
             return None          # out-of-bounds subscript: undefined in compiled code, compared in nojit/bounds modes
         a = io.get("err") if isinstance(io, dict) else None
         return None if a == mo["err"] else f"impl {short(io)} model err={mo['err']}"
-    if "err" in io:
-        return f"impl err={io['err']} ({io.get('msg', '')}) model {short(mo)}"
     m = mo["ok"]
     op = case["op"]
+    if "err" in io:
+        if (op == "apply" and case["level"] == "field" and case["fn"].endswith("_indexed")
+                and any(not 0 <= i < col_len(case["col"]) for i in m)):
+            return None      # malformed spans: the kernel's row numbers lie outside the field; re-indexing them is C09's business
+        return f"impl err={io['err']} ({io.get('msg', '')}) model {short(mo)}"
     if op.startswith("spans"):
         if io["spans"] != m["spans"]:
             return f"impl spans={io['spans']} model spans={m['spans']}"
